@@ -351,6 +351,22 @@ class World:
             new = deep(ed[1])
             if kind_of(new) != r.kind:
                 raise Skip()
+        elif ed[0] == "reformat":
+            # same content, different serialisation (key order reversed, indentation)
+            if r.disk is None or r.store != "file":
+                raise Skip()
+
+            def rev(v):
+                if isinstance(v, dict):
+                    return {k: rev(v[k]) for k in reversed(list(v))}
+                if isinstance(v, list):
+                    return [rev(x) for x in v]
+                return v
+            self.outside_write_raw(r, raw=seams.REAL["dumps"](rev(r.disk), indent=ed[1] if len(ed) > 1 else 2).encode())
+            self.stat("outside_reformat")
+            if r.bufstate is not None:
+                r.bufstate["changed_after"] = True
+            return
         elif ed[0] == "corrupt":
             self.outside_write_raw(r, raw=bytes(ed[1], "latin1"))
             r.corrupt = True
@@ -527,7 +543,8 @@ class World:
     def post_op(self, r, ob, h, name, mutated, buffered, pre, changed, lres):
         o = self.oracles
         if buffered:
-            self.buffered_touch(r, ob, mutated and changed, mutated)
+            # a mutator that raised still went through load-and-save: the buffered copy counts as written to
+            self.buffered_touch(r, ob, mutated and changed, mutated or M.is_mutator(h.kind, name))
         elif mutated:
             r.disk = deep(r.model)
         if "locks" in o:
@@ -535,7 +552,7 @@ class World:
         self.check_frozen(f"op {name}")
         if "backend" in o:
             self.check_backend(only_on_mut=not mutated)
-        if "nowrite" in o and not mutated:
+        if "nowrite" in o and not M.is_mutator(h.kind, name):
             self.check_nowrite(pre, f"read op {name}")
         if "bufsize" in o:
             self.check_bufsize(f"after {name}")
@@ -710,7 +727,9 @@ class World:
         """Default exit semantics (no outside writer): exits never raise; flushed files hold the logical content."""
         if isinstance(res, M.Raised):
             raise Violation("context_error", f"leaving {c['kind']} context raised {res!r}")
-        written = set()
+        # files with pending buffered modifications may be written by this exit (flush, or a capacity restore that
+        # forces one); everything else must stay untouched
+        written = {x.rid for x in self.res if x.bufstate is not None and x.bufstate["mutated"]}
         for ob in flushed:
             r = self.res[ob.rid]
             # the file leaves the buffer only when no object bound to it is still buffered
